@@ -135,8 +135,21 @@ def r2_include_order(ctx):
     # include_cfg keeps the configuration for modules created later, raw applies all kept configurations
     inc = P.fns.get('des::net::runtime::SimBuilder::include_cfg')
     if inc:
-        ok = any(s.name == 'std::vec::Vec::push' and receiver_field(inc.expr_operand(s.args[0], s.b, 'T')) == 'cfgs' for s in inc.calls())
-        ctx.check(ok, 'cfg-kept', 'an included configuration is kept for nodes created later', inc.where())
+        n = 0
+        for path, outcome, decs in fn_paths(ctx, inc):
+            if outcome != 'return':
+                continue
+            atoms = [a for _, a in path_atoms(inc, path, decs)]
+            parsed = any(a[0] == 'is' and a[2] == 'Ok' for a in atoms)
+            if not parsed:
+                continue
+            n += 1
+            effs = path_effects(inc, path)
+            pushes = [e for e in effs if e[0] == 'c' and e[1].name == 'std::vec::Vec::push' and receiver_field(e[2][0]) == 'cfgs']
+            ok = len(pushes) == 1 and any(x[0] == 'call' and x[1] == PR + 'yaml::Cfg::new' for x in walk(pushes[0][2][1]))
+            ctx.check(ok, 'cfg-kept', 'every successfully parsed configuration is kept as its own entry for nodes created later (configurations are never folded into each other)',
+                      inc.where_path(path), len(pushes))
+        ctx.floor('successful paths of include_cfg', n, 1)
     for k in ('des::net::runtime::SimBuilder::raw', 'des::net::ndl::raw_ndl'):
         h = P.fns.get(k)
         if h:
@@ -214,6 +227,22 @@ def r4_wildcard(ctx):
             # the looked-up key is the join of path[0..=i] with '.'
             key = [x for x in walk(base) if x[0] == 'call' and x[1].endswith('Mapping::get')]
             ctx.check(bool(key), 'literal-lookup', 'literal keys are looked up exactly (map.get), not by prefix', s.where())
+    # the wildcard compartment is always consulted (not a fallback): its recursion depends on nothing but the path being non-empty,
+    # the value being a mapping and the '<any>' entry existing
+    for s in rec:
+        base = f.expr_operand(s.args[1], s.b, 'T')
+        via_any = any(x[0] == 'constdef' and x[1].endswith('yaml::ANY') or (x[0] == 'const' and '<any>' in str(x[1])) for x in walk(base))
+        if not via_any:
+            continue
+        atoms = [a for _, a in f.guard_atoms(s.b)]
+        extra = []
+        for a in atoms:
+            if a[0] == 'bool' and a[1][0] == 'call' and a[1][1].endswith('::is_empty'):
+                continue
+            if a[0] in ('is', 'isnot'):
+                continue
+            extra.append(a)
+        ctx.check(not extra, 'wildcard-unconditional', "the '<any>' compartment applies to every module, whether or not a more specific key exists at the same level", s.where(), [show_atom(a) for a in extra])
     # leaf: with an empty remaining path every non-wildcard entry becomes a property
     sets = f.calls_to(PR + 'store::Props::set')
     leaf = [s for s in sets if any(a[0] == 'bool' and a[1][0] == 'call' and a[1][1].endswith('::is_empty') and a[2] is True for _, a in f.guard_atoms(s.b))]
@@ -223,7 +252,28 @@ def r4_wildcard(ctx):
         ctx.check(ok, 'leaf-skips-wildcards', "entries that still contain '<any>' are not turned into properties", leaf[0].where(), [show_atom(a) for a in atoms][:5])
 
 
+def r5_compartments_merged(ctx):
+    ctx.set_rule('C17.R5')
+    P = ctx.P
+    f = ctx.anchor(PR + 'yaml::compartmentalize_map')
+    if not f:
+        return
+    rec = f.calls_to(PR + 'yaml::compartmentalize_map')
+    if not ctx.floor('recursive rewrite in compartmentalize_map', len(rec), 1):
+        return
+    for s in rec:
+        t = f.expr_operand(s.args[0], s.b, 'T')
+        in_place = any(x[0] == 'call' and x[1].endswith('::or_insert') for x in walk(t)) and any(x[0] == 'call' and x[1].endswith('::entry') for x in walk(t))
+        ctx.check(in_place, 'rewrite-in-place', "nested wildcard keys are rewritten inside the compartment obtained with entry(..).or_insert(..): an existing compartment is extended, never rebuilt on the side", s.where(), show(t)[:160])
+    repl = [s for s in f.calls() if s.name.split('::')[-1] in ('extend', 'append') and 'Mapping' in s.name]
+    ctx.check(not repl, 'no-shallow-merge', 'compartments are not combined with a shallow extend (which would replace an existing nested compartment)', repl[0].where() if repl else f.where(), [s.name for s in repl])
+    # the leaf is stored under the remainder behind the wildcard
+    ins = [s for s in f.calls() if s.name.endswith('Mapping::insert')]
+    ctx.check(len(ins) >= 1, 'leaf-inserted', 'the entry is stored under the key remainder behind the wildcard', f.where())
+
+
 def run(ctx):
+    r5_compartments_merged(ctx)
     r1_segment_aligned(ctx)
     r2_include_order(ctx)
     r3_typed_access(ctx)
